@@ -295,8 +295,8 @@ def climbStep (C : ClimbCfg) (rec : List Tok → Nat → CRes) (gas : Nat)
       match rec ts' C.pre with                                 --   parse_expr(pairs, Precedence.PRE)
       | .ok r ts'' => climbLoop C rec prec gas (.pre tok r) ts''
       | e => e
-    else if tok.isPrimary then climbLoop C rec prec gas (.leaf tok) ts'   -- parse_primary(pair)
-    else .unexpected                                           -- parse_primary: case _: raise
+    else climbLoop C rec prec gas (.leaf tok) ts'              -- parse_primary(pair): a hook, see `build`
+                                                               -- (its `case _: raise` is `build`'s `.leaf _ => none`)
 
 def climbExpr (C : ClimbCfg) : Nat → List Tok → Nat → CRes
   | 0 => fun _ _ => .fuel
@@ -343,15 +343,17 @@ def nPostfix : List Tok → Option (EP × List Tok)
       some (.node .postfixR (.tok t :: fs), r')
     else none
 
-/-- `prefix = { (neg)* ~ postfix }`; the accumulator holds the `neg` pairs seen so far -/
-def nPrefixFrom (negs : List EP) : List Tok → Option (EP × List Tok)
-  | .neg :: r => nPrefixFrom (negs ++ [.tok .neg]) r
-  | r =>
-    match nPostfix r with
-    | some (p, r') => some (.node .prefixR (negs ++ [p]), r')
-    | none => none
+/-- `(neg)*` -/
+def nNegs : List Tok → List EP × List Tok
+  | .neg :: r => let (ns, r') := nNegs r; (.tok .neg :: ns, r')
+  | r => ([], r)
 
-def nPrefix : List Tok → Option (EP × List Tok) := nPrefixFrom []
+/-- `prefix = { (neg)* ~ postfix }` -/
+def nPrefix (ts : List Tok) : Option (EP × List Tok) :=
+  let (ns, r) := nNegs ts
+  match nPostfix r with
+  | some (p, r') => some (.node .prefixR (ns ++ [p]), r')
+  | none => none
 
 /-- `pow_expr = { prefix ~ (pow_op ~ pow_expr)? }` -/
 def nPow : Nat → List Tok → Option (EP × List Tok)
